@@ -972,6 +972,13 @@ def r10(ctx):
     ctx.floor("C02.R10", 30)
 
 
+def r12(ctx):
+    """what a replica holds - and shows through either access path - does not depend on the order of arrival: the raw store write
+    (entry_put) gives every admitted entry its record and its key-ordered index row, whether or not it is newer than the author's
+    head (the entry_put cells of C18.R2)"""
+    from . import C18
+    ctx.share("C02.R12", C18.r2, "C18.R2", keep=lambda k: "entry_put[" in k, floor=3)
+
 def run(ctx):
     ctx.run_rule("C02.R1", r1)
     ctx.run_rule("C02.R2", r2)
@@ -983,3 +990,4 @@ def run(ctx):
     ctx.run_rule("C02.R9", r9)
     ctx.run_rule("C02.R8", r8)
     ctx.run_rule("C02.R10", r10)
+    ctx.run_rule("C02.R12", r12)
